@@ -1,13 +1,151 @@
 /-
-  C01 — AT global rollback restores every row the transaction touched.  (theorems being added)
--/
-import SeataModel.AT.Phase1
-namespace Seata.Props.C01
-open Seata Seata.DB Seata.AT
+  C01 — AT global rollback restores every row the transaction touched.
 
-/-- placeholder-free sanity statement used while the restore proof is being built: an empty local
-    transaction changes nothing -/
-theorem C01_empty_local (sc : Schema) (cfg : Cfg) (t : Table) :
-    localPhase1 sc cfg t [] = .ok (t, { items := [], lockKeys := [] }) := rfl
+  Model: `DB/Store.lean` (tables, statements), `AT/Phase1.lean` (images, undo items, compensation,
+  data validation), `AT/World.lean` (branches, undo-log rows, rollback deliveries).  Tables are lists
+  of rows; re-inserted rows go to the end, so "the same contents" is `List.Perm`.
+-/
+import SeataModel.AT.World
+import SeataModel.Lemmas.Store
+namespace Seata.Props.C01
+open Seata Seata.DB Seata.AT Seata.Lemmas.Store
+
+/-! ### well-formedness (what the database and the SQL layer guarantee) -/
+
+structure WFSchema (sc : Schema) : Prop where
+  pk_lt : ∀ i ∈ sc.pk, i < sc.ncols
+
+structure WFTable (sc : Schema) (t : Table) : Prop where
+  uniq : PkUnique sc t
+  shape : ∀ r ∈ t, r.length = sc.ncols
+
+/-- UPDATE does not assign primary-key columns (the proxy rejects that: `pkChanged`) and only names
+    existing columns; INSERT gives one expression per column -/
+def WFStmt (sc : Schema) : Stmt → Prop
+  | .update sets _ => ∀ p ∈ sets, p.1 < sc.ncols ∧ p.1 ∉ sc.pk
+  | .delete _ => True
+  | .insert rows => ∀ es ∈ rows, es.length = sc.ncols
+
+theorem wfStmt_iff (sc : Schema) (s : Stmt) : WFStmt sc s ↔ StmtWF sc s := by
+  cases s <;> exact Iff.rfl
+
+/-! ### one statement -/
+
+/-- Phase one of one statement followed by the compensation of its undo item gives back the table
+    (as a set of rows), under every configuration, also when the table has been permuted meanwhile.
+    A statement that touched no row changes nothing and leaves an empty item (which is not logged). -/
+theorem C01_stmt_restore (sc : Schema) (cfg : Cfg) (t : Table) (args : Args) (s : Stmt)
+    (t' : Table) (item : Item) (keys : List Key)
+    (hsc : WFSchema sc) (ht : WFTable sc t) (hs : WFStmt sc s)
+    (h : stmtPhase1 sc cfg t args s = .ok (t', item, keys)) :
+    WFTable sc t' ∧
+    (item.nonEmpty = false → t' = t) ∧
+    (item.nonEmpty = true → ∀ u : Table, u.Perm t' →
+      ∃ u' res, undoItem sc cfg u item = (u', res) ∧ (res = .done ∨ res = .skipped) ∧ u'.Perm t) := by
+  have _ := hsc   -- (not needed: out-of-range key columns read as NULL consistently)
+  obtain ⟨⟨h1, h2⟩, h3, h4⟩ :=
+    stmt_restore sc cfg t args s t' item keys ht.uniq ht.shape ((wfStmt_iff sc s).1 hs) h
+  exact ⟨⟨h1, h2⟩, h3, h4⟩
+
+/-! ### one branch (local transaction) -/
+
+/-- Phase one of a local transaction followed by the rollback of its branch restores the table and
+    is answered "rollbacked". -/
+theorem C01_branch_restore (sc : Schema) (cfg : Cfg) (t : Table) (ltx : LocalTx) (t' : Table) (b : Branch)
+    (hsc : WFSchema sc) (ht : WFTable sc t) (hs : ∀ p ∈ ltx, WFStmt sc p.1)
+    (h : localPhase1 sc cfg t ltx = .ok (t', b)) :
+    WFTable sc t' ∧
+    ∀ u : Table, u.Perm t' → ∃ u', undoBranch sc cfg u b = (u', true) ∧ u'.Perm t := by
+  have _ := hsc
+  obtain ⟨⟨h1, h2⟩, h3⟩ := local_restore sc cfg ltx t t' b ht.uniq ht.shape
+    (fun p hp => (wfStmt_iff sc p.1).1 (hs p hp)) h
+  refine ⟨⟨h1, h2⟩, fun u hp => ?_⟩
+  obtain ⟨u', hf, hp'⟩ := h3 u hp
+  exact ⟨u', undoBranch_of_fold sc cfg u u' b hf, hp'⟩
+
+/-! ### the global transaction -/
+
+/-- phase one of the local transactions of a global transaction, in order -/
+def globalPhase1 (sc : Schema) (cfg : Cfg) (w : World) : List LocalTx → Option World
+  | [] => some w
+  | l :: rest => match runLocalTx sc cfg w l with
+    | none => none
+    | some w' => globalPhase1 sc cfg w' rest
+
+/-- phase one keeps the table well-formed and every registered branch restores the table the
+    previous one left (`Chain`) -/
+theorem globalPhase1_chain (sc : Schema) (cfg : Cfg) (t0 : Table) (ltxs : List LocalTx) :
+    ∀ (w w' : World), WFTable sc w.t → Chain sc cfg t0 w.branches w.t →
+      (∀ l ∈ ltxs, ∀ p ∈ l, WFStmt sc p.1) → globalPhase1 sc cfg w ltxs = some w' →
+      Chain sc cfg t0 w'.branches w'.t := by
+  induction ltxs with
+  | nil =>
+    intro w w' _ hc _ h
+    simp only [globalPhase1, Option.some.injEq] at h
+    exact h ▸ hc
+  | cons l rest ih =>
+    intro w w' ht hc hs h
+    simp only [globalPhase1] at h
+    split at h
+    · cases h
+    · rename_i w1 h1
+      obtain ⟨⟨hu1, hsh1⟩, hc1⟩ := runLocalTx_chain sc cfg t0 w w1 l ht.uniq ht.shape
+        (fun p hp => (wfStmt_iff sc p.1).1 (hs l (by simp) p hp)) hc h1
+      exact ih w1 w' ⟨hu1, hsh1⟩ hc1 (fun l' hl' => hs l' (by simp [hl'])) h
+
+/-- **C01**: after phase one of any number of local transactions, rolling every branch back (last
+    first) is answered "rollbacked" by every branch, restores the table it started from and leaves no
+    undo-log row. -/
+theorem C01_global_restore (sc : Schema) (cfg : Cfg) (t : Table) (ltxs : List LocalTx) (w : World)
+    (hsc : WFSchema sc) (ht : WFTable sc t) (hs : ∀ l ∈ ltxs, ∀ p ∈ l, WFStmt sc p.1)
+    (h : globalPhase1 sc cfg { t := t, branches := [] } ltxs = some w) :
+    ∃ w', rollbackAll sc cfg w = (w', true) ∧ w'.t.Perm t ∧ ∀ bs ∈ w'.branches, bs.hasLog = false := by
+  have _ := hsc
+  apply rollbackAll_chain sc cfg t w
+  exact globalPhase1_chain sc cfg t ltxs { t := t, branches := [] } w ht
+    (by simp [Chain, ChainR]) hs h
+
+/-- The branch answers "rollbacked" for a logged branch only if every undo item was compensated (or
+    needed no compensation); otherwise the answer is a failure and nothing has changed. -/
+theorem C01_answer_sound (sc : Schema) (cfg : Cfg) (w : World) (i : Nat) (bs : BranchSt)
+    (hb : w.branches[i]? = some bs) (hl : bs.hasLog = true) :
+    ((rollbackBranch sc cfg w i).2 = true → (undoFold sc cfg w.t bs.b.items.reverse).2 = true ∧
+        (rollbackBranch sc cfg w i).1.t = (undoFold sc cfg w.t bs.b.items.reverse).1) ∧
+    ((rollbackBranch sc cfg w i).2 = false → (rollbackBranch sc cfg w i).1 = w) := by
+  rcases hr : undoFold sc cfg w.t bs.b.items.reverse with ⟨u, ok⟩
+  cases ok <;> simp [rollbackBranch, hb, hl, undoBranch, hr]
+
+/-- an item that cannot be compensated makes the whole branch fail (never "rollbacked") -/
+theorem C01_failure_reported (sc : Schema) (cfg : Cfg) (t : Table) (pre post : List Item) (it : Item)
+    (hpre : (undoFold sc cfg t pre).2 = true)
+    (hit : (undoItem sc cfg (undoFold sc cfg t pre).1 it).2 = .dirty ∨
+           (undoItem sc cfg (undoFold sc cfg t pre).1 it).2 = .sqlError) :
+    undoFold sc cfg t (pre ++ it :: post) = ((undoFold sc cfg t pre).1, false) := by
+  have hsplit : undoFold sc cfg t (pre ++ it :: post) =
+      post.foldl (undoStep sc cfg) (undoStep sc cfg (undoFold sc cfg t pre) it) := by
+    simp [undoFold, List.foldl_append]
+  have hpair : undoFold sc cfg t pre = ((undoFold sc cfg t pre).1, true) := by rw [← hpre]
+  rw [hsplit, hpair, undoStep_fail sc cfg _ it hit, undoFold_false]
+
+/-! ### non-vacuity -/
+
+def sc1 : Schema := { ncols := 2, pk := [0] }
+def t1 : Table := [[.int 1, .int 10], [.int 2, .int 20]]
+def upd : Stmt := .update [(1, .plus 1 (.lit (.int 5)))] (.cmp .eq (.col 0) (.par 0))
+
+example : WFSchema sc1 := ⟨by decide⟩
+example : WFStmt sc1 upd := by simp [WFStmt, upd, sc1]
+example : ∃ t' b, localPhase1 sc1 ⟨true, true⟩ t1 [(upd, [.int 2]), (.delete .tt, [])] = .ok (t', b) ∧
+    t' = [] ∧ b.items.length = 2 ∧ (undoBranch sc1 ⟨true, true⟩ t' b) = ([[.int 1, .int 10], [.int 2, .int 20]], true) := by
+  refine ⟨_, _, rfl, ?_⟩
+  decide
+
+example : WFTable sc1 t1 := ⟨by simp [PkUnique, sc1, t1, keyOf], by simp [sc1, t1]⟩
+/-- two branches, rolled back last first: the table is back (here even in the original order) -/
+example : ∃ w, globalPhase1 sc1 ⟨true, true⟩ { t := t1 } [[(upd, [.int 2])], [(.delete .tt, [])]] = some w ∧
+    w.t = [] ∧ w.branches.length = 2 ∧
+    (rollbackAll sc1 ⟨true, true⟩ w).2 = true ∧ (rollbackAll sc1 ⟨true, true⟩ w).1.t = t1 := by
+  refine ⟨_, rfl, ?_⟩
+  decide
 
 end Seata.Props.C01
